@@ -39,6 +39,12 @@ CHECKS = {
     "C20": dict(level="model_checking", ref="5 (C20), 4.1",
                 technique="I->S trace validation of boundary programs run instruction by instruction on the UBSan/ASan build (TheoVMTrace.tla with overflow values bound, WordsInRange) + S->I replay of TheoWord.tla literal-range cases into the compiler",
                 text="Boundary programs (largest literal, x+c with c up to 2^31-2, sums through calls and loops, counters at zero) are executed one instruction at a time on the sanitizer build; each event binds every word of every frame: in-range additions must be exact, an overflowing addition may store any value in 0..2^31-1 but the same one for the same operands, subtraction truncates at 0, WordsInRange holds in every state and a UBSan report is an abort with no explaining action. The literal rule (digit-string order, any length) is enumerated by TLC over 16 literals x 11 positions (assignments, IF comparands, call arguments, +/- sugar, macro INT slots and bodies, priorities, insertion indices) and replayed into the real compiler (verdict and presence of a range error)."),
+    "C14": dict(level="model_checking", ref="5 (C14), 4.5",
+                technique="TLC enumeration with TheoLex.tla (maximal-munch tokeniser over the frozen vocabulary) and TheoInclude.tla, S->I replay into two scanner builds (committed lex.yy.c and one regenerated from lexer.l)",
+                text="TheoLex enumerates every string of <= 3 characters over 41 significant characters (thorough: also <= 4 over 22) and all pairs of ~350 fragments (every keyword spelling, its near misses, multi-word tokens with one/two blanks or a newline, sigils, quoted names, comments) and computes the expected kinds, texts and end lines; TheoInclude enumerates well-formed include layouts over 3 files. Every case is scanned by the build using the shipped lex.yy.c and by the build whose scanner is regenerated from lexer.l; tokens, file labels, lines and the single trailing EOF must equal the specification on both."),
+    "C15": dict(level="model_checking", ref="5 (C15), 4.5",
+                technique="TLC model checking of TheoInclude.tla (termination under weak fairness, DepthOK, ReqsOK) with exhaustive enumeration of include graphs, S->I replay into Theo::scan / Theo::compile",
+                text="TheoInclude mirrors the scanner's include stack, one action per branch; TLC checks termination, stack-depth and request invariants and enumerates all ~500k configurations of 3 files with up to 2 items each (token, include of each file or of an absent name, include without a name, bare include at end of file) times every choice of main including an absent one, plus random graphs over 4-7 files. Each is rendered and scanned for real: tokens with files and lines, errors by type, file and line and the request set must agree; Theo::compile's file_requests are compared on a sample."),
 }
 
 NOT_YET = "check not built yet in this session (construction order in DESIGN.md section 10); will be claimed when its check exists"
